@@ -292,6 +292,9 @@ func c28Gen(w *bufio.Writer, seed int64, tier string) {
 		asleep := r.chance(50)
 		fmt.Fprintf(w, "reset %d %d\n", c28B2i(signing), c28B2i(asleep))
 		steps := 1 + r.intn(4)
+		if r.chance(8) { // long history on one agent: state left by earlier commands is re-used
+			steps = 10 + r.intn(15)
+		}
 		nextID := uint64(1 + r.intn(5))
 		for s := 0; s < steps; s++ {
 			if r.chance(12) {
